@@ -402,11 +402,13 @@ pub struct GenOpts {
     pub acyclic: bool,
     /// signatures spread over several lines
     pub multiline_per_mille: u32,
+    /// fixture functions may be called test_<something> (test_client, test_db, ...)
+    pub test_prefixed_fixtures: bool,
 }
 
 impl Default for GenOpts {
     fn default() -> Self {
-        GenOpts { max_fixtures: 3, max_tests: 2, self_dep_per_mille: 150, dup_names: false, scopes: true, alias: true, in_class: true, marks: true, body_uses: true, assign_style: true, acyclic: false, multiline_per_mille: 120 }
+        GenOpts { max_fixtures: 3, max_tests: 2, self_dep_per_mille: 150, dup_names: false, scopes: true, alias: true, in_class: true, marks: true, body_uses: true, assign_style: true, acyclic: false, multiline_per_mille: 120, test_prefixed_fixtures: true }
     }
 }
 
@@ -446,7 +448,7 @@ pub fn gen_items(rng: &mut Rng, names: &[String], is_test_file: bool, o: &GenOpt
             used.push(a.clone());
         }
         items.push(Item::Fixture(Fx {
-            func: if alias.is_some() { format!("_{}_impl", func) } else { func.clone() },
+            func: if alias.is_some() { format!("{}_impl", func) } else if o.test_prefixed_fixtures && style != 2 && rng.chance(60) { format!("test_{}", func) } else { func.clone() },
             alias,
             scope: if o.scopes && rng.chance(400) { rng.below(5) as u8 } else { 0 },
             autouse: rng.chance(80),
